@@ -51,7 +51,7 @@ def strategy(tier):
     return project_strategy(
         calls_per_op=2,
         doc_kw={"n_ops": (1, 3), "n_frags": (0, 3)},
-        ops_kw={"var_p": 0.6, "frag_p": 0.5},
+        ops_kw={"var_p": 0.6, "frag_p": 0.5, "enums_in_fragments_only_p": 0.2},
         schema_kw={"input_heavy": True, "defaults": 0.35},
         config_fn=lambda d: base_config(d, otel=False),
     )
